@@ -149,6 +149,31 @@ struct CaseOut {
     compared: u64,
 }
 
+/// Which blobs hold the deletion marker (timestamp 5) of a cancelled delete: closed blobs at the time of
+/// the call vs. the blob that was (or became) active. Part of the identity of the partial-delete finding.
+fn marker_pattern(d: &Driver<8>, closed_at_cancel: &[usize], k: u16) -> &'static str {
+    let key = crate::drive::key_bytes(d.cfg.key_salt, k, 8);
+    let mut in_closed = 0usize;
+    let mut in_active = 0usize;
+    for id in d.dir_blob_ids() {
+        if let Ok(bp) = crate::parse::parse_blob_file(&d.dir.join(format!("t.{}.blob", id))) {
+            if bp.records.iter().any(|r| r.deleted() && r.ts == 5 && r.key == key) {
+                if closed_at_cancel.contains(&id) {
+                    in_closed += 1;
+                } else {
+                    in_active += 1;
+                }
+            }
+        }
+    }
+    match (in_active > 0, in_closed > 0) {
+        (true, false) => "active-marked-closed-not",
+        (false, true) => "closed-marked-active-not",
+        (true, true) => "active-and-some-closed-marked",
+        (false, false) => "nothing-marked",
+    }
+}
+
 fn mm(out: &mut CaseOut, stage: &str, m: Mismatch) {
     out.violation = Some((format!("{}/{}", stage, m.sig), m.detail));
 }
@@ -230,6 +255,7 @@ async fn run_case(d: &mut Driver<8>, kind: Kind, reopened: bool, k: usize, cont_
         tap::set_faults(&dir, vec![tap::Fault { kinds: vec![tap::Kind::Write, tap::Kind::Sync, tap::Kind::Create], suffix: "".into(), nth: 0, sticky: false, action: tap::Action::Delay(25) }]);
     }
     // ---- the cancelled operation
+    let closed_at_cancel: Vec<usize> = d.model.closed.clone();
     let mut not_model = d.model.clone();
     let mut applied_model = d.model.clone();
     let val = d.fresh_val();
@@ -427,7 +453,14 @@ async fn run_case(d: &mut Driver<8>, kind: Kind, reopened: bool, k: usize, cont_
             };
             let v = d.peek_val();
             apply_to_model(&mut other, &op, v);
-            if let Err(m) = d.step(&op).await {
+            if let Err(mut m) = d.step(&op).await {
+                if m.sig.starts_with("delete-count") {
+                    let dk = match kind.op() {
+                        Some(Op::Del { k, .. }) => k,
+                        _ => 2,
+                    };
+                    m.sig = format!("{}/{}", m.sig, marker_pattern(d, &closed_at_cancel, dk));
+                }
                 bail!("further-ops", m);
             }
             if let Err(m) = d.check(S_ALL_QUERIES).await {
@@ -561,7 +594,7 @@ pub fn shard(ctx: &Ctx) -> Shard {
                                 // first, so a half-applied delete leaves closed blobs unmarked ("more" blobs marked later than
                                 // the not-applied model... or "fewer" than the applied one); another order of the steps would
                                 // show up under another signature
-                                (format!("cancelled-delete-applied-to-a-subset-of-blobs/{}", sig.rsplit('/').next().unwrap_or("")), format!("a later delete of the same key marks a different number of blobs than after a complete or absent delete ({})", detail))
+                                (format!("cancelled-delete-applied-to-a-subset-of-blobs/{}", sig.splitn(3, '/').nth(2).unwrap_or("")), format!("a later delete of the same key marks a different number of blobs than after a complete or absent delete ({})", detail))
                             } else {
                                 (sig, detail)
                             };
